@@ -316,6 +316,94 @@ def list_spec_is_lazy_and_call_parts_go_left_to_right(col):
             col.violation('C03/call-parts-order', '%s: %r, the leftmost failing part (a %s) must surface' % (desc, got, want_cls), None)
 
 
+def _same_typed(a, b):
+    if type(a) is not type(b) or a != b:
+        return False
+    if isinstance(a, (list, tuple)):
+        return len(a) == len(b) and all(_same_typed(x, y) for x, y in zip(a, b))
+    if isinstance(a, dict):
+        return list(a) == list(b) and all(_same_typed(a[k], b[k]) for k in a)
+    return True
+
+
+class _Bumper:
+    def __init__(self, log):
+        self.log = log
+
+    def bump(self, tag='default'):
+        self.log.append(tag)
+        return ('bumped', tag, len(self.log))
+
+
+def coalesce_default_comes_last_and_container_subclass_constants_pass_through(col):
+    """(1) "Coalesce: first non-skipped success wins, later parts are not evaluated": a default that is computed (a T expression, a
+    Spec, a container holding one) is a part like the others - it is evaluated after every alternative was skipped, once, and not at
+    all when an alternative wins.  (2) "Call and Invoke combine their parts as documented": a constant argument that is an instance
+    of a container SUBCLASS (namedtuple, ...) reaches the function as it is, also when it comes out of the target"""
+    import collections
+    from glom import Call, Invoke, Spec, Val
+    mk = lambda: {'a': 1, 'ctr': _Bumper([]), 'none': None}
+    cases = [
+        ('winner-then-failing-default', lambda: Coalesce('a', default=T['fallback']), lambda t: 1, []),
+        ('winner-then-counting-default', lambda: Coalesce('a', default=T['ctr'].bump()), lambda t: 1, []),
+        ('second-winner-then-counting-default', lambda: Coalesce('zz', T['ctr'].bump('alt'), default=T['ctr'].bump()), lambda t: ('bumped', 'alt', 1), ['alt']),
+        ('all-skipped-counting-default', lambda: Coalesce('zz', T['yy'], default=T['ctr'].bump()), lambda t: ('bumped', 'default', 1), ['default']),
+        ('alternatives-before-default', lambda: Coalesce((T['ctr'].bump('alt1'), 'zz'), (T['ctr'].bump('alt2'), T['yy']), default=T['ctr'].bump()),
+         lambda t: ('bumped', 'default', 3), ['alt1', 'alt2', 'default']),
+        ('winner-then-default-in-a-container', lambda: Coalesce('a', default={'x': T['ctr'].bump()}), lambda t: 1, []),
+        ('skipped-value-then-default-in-a-container', lambda: Coalesce('none', default=[T['ctr'].bump(), T['a']], skip=None),
+         lambda t: [('bumped', 'default', 1), 1], ['default']),
+        ('winner-then-Spec-default', lambda: Coalesce('a', default=Spec(T['ctr'].bump())), lambda t: 1, []),
+        ('nested-in-dict-winner', lambda: {'k': Coalesce('a', default=T['ctr'].bump()), 'n': T['ctr'].bump('after')},
+         lambda t: {'k': 1, 'n': ('bumped', 'after', 1)}, ['after']),
+    ]
+    for desc, mk_spec, want, want_log in cases:
+        spec = mk_spec()
+        for round_ in range(2):
+            t = mk()
+            got = call(G, t, spec)
+            col.case(('coalesce-default-order', desc, round_), True)
+            col.count('glom_evaluations')
+            if not got.ok or got.value != want(t) or t['ctr'].log != want_log:
+                col.violation('C03/coalesce-default-evaluated-early-or-unnecessarily:' + desc,
+                              'evaluation %d of %s: %r, parts that ran %s; expected %r and %s'
+                              % (round_ + 1, short(spec), got, t['ctr'].log, want(t), want_log), None)
+                break
+    Pt = collections.namedtuple('Pt', 'x y')
+    Tag = collections.namedtuple('Tag', 'name')
+
+    class Bag(frozenset):
+        pass
+
+    class Row(tuple):
+        pass
+    consts = [('namedtuple-2', Pt(1, 2)), ('namedtuple-1', Tag('t')), ('namedtuple-holding-T-lookalikes', Pt('a', ('a', 'b'))),
+              ('frozenset-subclass', Bag([1, 2])), ('tuple-subclass', Row((1, 2))), ('defaultdict', collections.defaultdict(list, {'k': [1]})),
+              ('ordereddict', OrderedDict([('k', 1)]))]
+    echo = lambda *a, **kw: (a, tuple(sorted(kw.items())))
+    for name, c in consts:
+        shapes = [
+            ('Call-arg', lambda: Call(echo, args=(c,)), lambda: ((c,), ())),
+            ('Call-kwarg', lambda: Call(echo, kwargs={'k': c}), lambda: ((), (('k', c),))),
+            ('Call-arg-nested', lambda: Call(echo, args=([c, T['a']],)), lambda: (([c, 1],), ())),
+            ('Invoke-constant', lambda: Invoke(echo).constants(c, k=c), lambda: ((c,), (('k', c),))),
+            ('Coalesce-default', lambda: Coalesce('zz', default=c), lambda: c),
+            ('Coalesce-default-nested', lambda: Coalesce('zz', default=(c, T['a'])), lambda: (c, 1)),
+            ('T-call-arg', lambda: T['f'](c, k=c), lambda: ((c,), (('k', c),))),
+            ('T-call-arg-from-target', lambda: T['f'](T['held'], k=T['held']), lambda: ((c,), (('k', c),))),
+            ('Call-arg-from-target', lambda: Call(echo, args=(T['held'],)), lambda: ((c,), ())),
+        ]
+        for sname, mk_spec, want in shapes:
+            t = {'a': 1, 'f': echo, 'held': c}
+            got = call(G, t, mk_spec())
+            col.case(('container-subclass-constant', name, sname), True)
+            col.count('glom_evaluations')
+            w = want()
+            if not got.ok or not _same_typed(got.value, w):
+                col.violation('C03/container-subclass-constant-not-passed-through:%s:%s' % (sname, name),
+                              '%s with the constant %r: %r, expected %r' % (sname, c, got, w), None)
+
+
 def run(ctx):
     col, rng = ctx.col, ctx.rng
     col.require('glom_evaluations', 1000)
@@ -329,6 +417,7 @@ def run(ctx):
             systematic(col, rng)
             literal_defaults_and_arguments_are_per_evaluation(col)
             list_spec_is_lazy_and_call_parts_go_left_to_right(col)
+            coalesce_default_comes_last_and_container_subclass_constants_pass_through(col)
         for i in range(ctx.n(30000, 120000)):
             one_case(col, rng, tracer)
     finally:
